@@ -10,6 +10,7 @@ from . import gateway_units as gu, handlers_common as hc
 from .common import BASE_TRUSTED
 
 PROP = "C13"
+ASSUMPTION_CHECKS = ['A-MM', 'A-JSON']
 MIN_OBLIGATIONS = 40
 TRUSTED = BASE_TRUSTED + [
     "A-MM: field-wise load(dump(v)) == v for fields.Int / Str / Bool / Dict(keys=Int) / Nested on values inside their accept domain (marshmallow 3.26)",
